@@ -329,7 +329,7 @@ def run_tie(prop, spec, tier, seed):
         res.failures.append(Failure("infra", "crouter stress program does not compile against the working tree", replay={"compiler": (sout or "")[-3000:]}))
     else:
         import subprocess
-        nruns, ms = (3, 1200) if tier == "quick" else (12, 3000)
+        nruns, ms = (6, 1000) if tier == "quick" else (20, 3000)
         stress = []
         for k in range(nruns):
             sd = (seed * 7919 + k) % 100000
